@@ -1367,6 +1367,567 @@ theorem cseC_never_hoists_div (s1 s2 : List CS) :
         · exact ih h
       · exact ih hk1
 
+/-! ## 10b. CSE: the rewritten if/else behaves like the original (value equivalence) -/
+
+/-- environments that agree outside a set of names -/
+def AgreeS (F : List Nat) (ρ1 ρ2 : Nat → Int) : Prop := ∀ y, y ∉ F → ρ1 y = ρ2 y
+
+theorem eval_of_not_usesS (F : List Nat) (a : Operand) (ρ1 ρ2 : Nat → Int)
+    (h : ∀ x, x ∈ F → a.uses x = false) (hA : AgreeS F ρ1 ρ2) : a.eval ρ1 = a.eval ρ2 := by
+  cases a with
+  | lit n => rfl
+  | var y =>
+    apply hA y
+    intro hy
+    have := h y hy
+    simp [Operand.uses] at this
+
+theorem agreeS_update (F : List Nat) (ρ1 ρ2 : Nat → Int) (hA : AgreeS F ρ1 ρ2) (y : Nat) (v : Int) :
+    AgreeS F (update ρ1 y v) (update ρ2 y v) := by
+  intro z hz
+  simp only [update]
+  split
+  · rfl
+  · exact hA z hz
+
+theorem agreeS_assignAll (F : List Nat) (l : List (Nat × Int)) (ρ1 ρ2 : Nat → Int) (hA : AgreeS F ρ1 ρ2) :
+    AgreeS F (assignAll ρ1 l) (assignAll ρ2 l) := by
+  induction l generalizing ρ1 ρ2 with
+  | nil => exact hA
+  | cons p r ih => obtain ⟨y, v⟩ := p; exact ih _ _ (agreeS_update F _ _ hA y v)
+
+def ResAgreeS (F : List Nat) : Res → Res → Prop
+  | .trap, .trap => True
+  | .brk v, .brk w => v = w
+  | .next ρ1, .next ρ2 => AgreeS F ρ1 ρ2
+  | _, _ => False
+
+theorem execSimple_irrelS (F : List Nat) (p : List Simple) (ρ1 ρ2 : Nat → Int)
+    (h : ∀ x, x ∈ F → p.any (usesSimple x) = false) (hA : AgreeS F ρ1 ρ2) :
+    (execSimple p ρ1).1 = (execSimple p ρ2).1 ∧ ResAgreeS F (execSimple p ρ1).2 (execSimple p ρ2).2 := by
+  induction p generalizing ρ1 ρ2 with
+  | nil => exact ⟨rfl, hA⟩
+  | cons st r ih =>
+    have hst : ∀ x, x ∈ F → usesSimple x st = false := fun x hx => by
+      have := h x hx; simp only [List.any_cons, Bool.or_eq_false_iff] at this; exact this.1
+    have hr : ∀ x, x ∈ F → r.any (usesSimple x) = false := fun x hx => by
+      have := h x hx; simp only [List.any_cons, Bool.or_eq_false_iff] at this; exact this.2
+    cases st with
+    | print a =>
+      have ea := eval_of_not_usesS F a ρ1 ρ2 (fun x hx => by simpa [usesSimple] using hst x hx) hA
+      have := ih ρ1 ρ2 hr hA
+      simp only [execSimple, ea]
+      exact ⟨by rw [this.1], this.2⟩
+    | brk a =>
+      have ea := eval_of_not_usesS F a ρ1 ρ2 (fun x hx => by simpa [usesSimple] using hst x hx) hA
+      simp only [execSimple, ea]
+      exact ⟨trivial, by simp [ResAgreeS]⟩
+    | bin y op a b =>
+      have ea := eval_of_not_usesS F a ρ1 ρ2 (fun x hx => by
+        have := hst x hx; simp only [usesSimple, Bool.or_eq_false_iff] at this; exact this.1) hA
+      have eb := eval_of_not_usesS F b ρ1 ρ2 (fun x hx => by
+        have := hst x hx; simp only [usesSimple, Bool.or_eq_false_iff] at this; exact this.2) hA
+      simp only [execSimple, ea, eb]
+      cases evalTarget op (a.eval ρ2) (b.eval ρ2) with
+      | none => exact ⟨rfl, trivial⟩
+      | some v => exact ih _ _ hr (agreeS_update F _ _ hA y v)
+
+theorem fas_vals_agreeS (F : List Nat) (fas : List (Nat × Operand × Operand)) (sel : Operand × Operand → Operand)
+    (ρ1 ρ2 : Nat → Int) (h : ∀ fa, fa ∈ fas → ∀ x, x ∈ F → (sel fa.2).uses x = false) (hA : AgreeS F ρ1 ρ2) :
+    (fas.map fun fa => (fa.1, (sel fa.2).eval ρ1)) = (fas.map fun fa => (fa.1, (sel fa.2).eval ρ2)) := by
+  apply List.map_congr_left
+  intro fa hfa
+  rw [eval_of_not_usesS F _ ρ1 ρ2 (h fa hfa) hA]
+
+theorem execL_irrelS (F : List Nat) (p : List LStmt) (ρ1 ρ2 : Nat → Int)
+    (h : ∀ x, x ∈ F → p.any (usesL x) = false) (hA : AgreeS F ρ1 ρ2) :
+    (execL p ρ1).1 = (execL p ρ2).1 ∧ ResAgreeS F (execL p ρ1).2 (execL p ρ2).2 := by
+  induction p generalizing ρ1 ρ2 with
+  | nil => exact ⟨rfl, hA⟩
+  | cons st r ih =>
+    have hst : ∀ x, x ∈ F → usesL x st = false := fun x hx => by
+      have := h x hx; simp only [List.any_cons, Bool.or_eq_false_iff] at this; exact this.1
+    have hr : ∀ x, x ∈ F → r.any (usesL x) = false := fun x hx => by
+      have := h x hx; simp only [List.any_cons, Bool.or_eq_false_iff] at this; exact this.2
+    cases st with
+    | s st =>
+      have hs := execSimple_irrelS F [st] ρ1 ρ2 (fun x hx => by have := hst x hx; simp only [usesL] at this; simp [this]) hA
+      simp only [execL]
+      cases h1 : execSimple [st] ρ1 with
+      | mk t1 r1 =>
+        cases h2 : execSimple [st] ρ2 with
+        | mk t2 r2 =>
+          rw [h1, h2] at hs
+          simp only at hs
+          cases r1 <;> cases r2 <;> simp only [ResAgreeS] at hs ⊢
+          all_goals first | exact ⟨hs.1, trivial⟩ | exact hs.2.elim | exact ⟨hs.1, hs.2⟩ | skip
+          have := ih _ _ hr hs.2
+          exact ⟨by rw [hs.1, this.1], this.2⟩
+    | sif c inv body =>
+      have hc : ∀ x, x ∈ F → c.uses x = false := fun x hx => by
+        have := hst x hx; simp only [usesL, Bool.or_eq_false_iff] at this; exact this.1
+      have hb : ∀ x, x ∈ F → body.any (usesSimple x) = false := fun x hx => by
+        have := hst x hx; simp only [usesL, Bool.or_eq_false_iff] at this; exact this.2
+      simp only [execL, eval_of_not_usesS F c ρ1 ρ2 hc hA]
+      split
+      · have hs := execSimple_irrelS F body ρ1 ρ2 hb hA
+        cases h1 : execSimple body ρ1 with
+        | mk t1 r1 =>
+          cases h2 : execSimple body ρ2 with
+          | mk t2 r2 =>
+            rw [h1, h2] at hs
+            simp only at hs
+            cases r1 <;> cases r2 <;> simp only [ResAgreeS] at hs ⊢
+            all_goals first | exact ⟨hs.1, trivial⟩ | exact hs.2.elim | exact ⟨hs.1, hs.2⟩ | skip
+            have := ih _ _ hr hs.2
+            exact ⟨by rw [hs.1, this.1], this.2⟩
+      · exact ih _ _ hr hA
+    | ife c s1 s2 fas =>
+      have hall : ∀ x, x ∈ F → c.uses x = false ∧ s1.any (usesSimple x) = false ∧ s2.any (usesSimple x) = false ∧
+          (fas.any fun fa => fa.2.1.uses x || fa.2.2.uses x) = false := fun x hx => by
+        have := hst x hx; simp only [usesL, Bool.or_eq_false_iff] at this
+        exact ⟨this.1.1.1, this.1.1.2, this.1.2, this.2⟩
+      have hf' : ∀ fa, fa ∈ fas → ∀ x, x ∈ F → fa.2.1.uses x = false ∧ fa.2.2.uses x = false := by
+        intro fa hfa x hx
+        have := List.any_eq_false.mp (hall x hx).2.2.2 fa hfa
+        have h2 : (fa.2.1.uses x || fa.2.2.uses x) = false := by simpa using this
+        exact Bool.or_eq_false_iff.mp h2
+      simp only [execL, eval_of_not_usesS F c ρ1 ρ2 (fun x hx => (hall x hx).1) hA]
+      split
+      · have hs := execSimple_irrelS F s1 ρ1 ρ2 (fun x hx => (hall x hx).2.1) hA
+        cases e1 : execSimple s1 ρ1 with
+        | mk t1 r1 =>
+          cases e2 : execSimple s1 ρ2 with
+          | mk t2 r2 =>
+            rw [e1, e2] at hs
+            simp only at hs
+            cases r1 <;> cases r2 <;> simp only [ResAgreeS] at hs ⊢
+            all_goals first | exact ⟨hs.1, trivial⟩ | exact hs.2.elim | exact ⟨hs.1, hs.2⟩ | skip
+            rename_i σ1 σ2
+            rw [fas_vals_agreeS F fas (fun q => q.1) σ1 σ2 (fun fa hfa x hx => (hf' fa hfa x hx).1) hs.2]
+            have := ih _ _ hr (agreeS_assignAll F (fas.map fun fa => (fa.1, fa.2.1.eval σ2)) σ1 σ2 hs.2)
+            exact ⟨by rw [hs.1, this.1], this.2⟩
+      · have hs := execSimple_irrelS F s2 ρ1 ρ2 (fun x hx => (hall x hx).2.2.1) hA
+        cases e1 : execSimple s2 ρ1 with
+        | mk t1 r1 =>
+          cases e2 : execSimple s2 ρ2 with
+          | mk t2 r2 =>
+            rw [e1, e2] at hs
+            simp only at hs
+            cases r1 <;> cases r2 <;> simp only [ResAgreeS] at hs ⊢
+            all_goals first | exact ⟨hs.1, trivial⟩ | exact hs.2.elim | exact ⟨hs.1, hs.2⟩ | skip
+            rename_i σ1 σ2
+            rw [fas_vals_agreeS F fas (fun q => q.2) σ1 σ2 (fun fa hfa x hx => (hf' fa hfa x hx).2) hs.2]
+            have := ih _ _ hr (agreeS_assignAll F (fas.map fun fa => (fa.1, fa.2.2.eval σ2)) σ1 σ2 hs.2)
+            exact ⟨by rw [hs.1, this.1], this.2⟩
+
+/-- running a block of top-level statements first: `execL` of `.s`-wrapped statements is `execSimple` -/
+theorem execL_prefix (h : List Simple) (p : List LStmt) (ρ : Nat → Int) :
+    execL (h.map LStmt.s ++ p) ρ =
+      match execSimple h ρ with
+      | (t, .next ρ') => (t ++ (execL p ρ').1, (execL p ρ').2)
+      | (t, other) => (t, other) := by
+  induction h generalizing ρ with
+  | nil => simp [execSimple]
+  | cons st r ih =>
+    simp only [List.map_cons, List.cons_append, execL]
+    cases st with
+    | brk a => simp [execSimple]
+    | print a =>
+      simp only [execSimple, List.nil_append, List.cons_append, ih]
+      cases execSimple r ρ with
+      | mk t res => cases res <;> simp
+    | bin x op a b =>
+      simp only [execSimple]
+      cases evalTarget op (a.eval ρ) (b.eval ρ) with
+      | none => simp
+      | some v => simp only [List.nil_append, ih]
+
+/-- FULL STRENGTH (`fresh_prefix_preserves`): a prefix of statements that prints nothing and cannot trap
+or break, and that defines only names the following block never reads, does not change what that
+block prints or how it ends; the final environments agree outside the prefix's names. -/
+theorem fresh_prefix_preserves (h : List Simple) (p : List LStmt) (ρ ρ' : Nat → Int)
+    (hrun : execSimple h ρ = ([], .next ρ'))
+    (hfresh : ∀ x, x ∈ defsSimple h → p.any (usesL x) = false) :
+    (execL (h.map LStmt.s ++ p) ρ).1 = (execL p ρ).1 ∧
+    ResAgreeS (defsSimple h) (execL (h.map LStmt.s ++ p) ρ).2 (execL p ρ).2 := by
+  rw [execL_prefix, hrun]
+  simp only [List.nil_append]
+  have hA : AgreeS (defsSimple h) ρ' ρ := by
+    intro y hy
+    exact execSimple_frame h ρ ρ' (by rw [hrun]) y hy
+  exact execL_irrelS (defsSimple h) p ρ' ρ hfresh hA
+
+theorem defs_cseHoisted (ks : List Key) (fresh : Nat) : defsSimple (cseHoisted ks fresh) = List.range' fresh ks.length := by
+  induction ks generalizing fresh with
+  | nil => rfl
+  | cons k r ih => obtain ⟨op, a, b⟩ := k; simp [cseHoisted, defsSimple, ih, List.range'_succ]
+
+/-- FULL STRENGTH (`cse_preserves`): what CSE makes of an if/else — the values common to both branches
+computed under fresh names in front of it, the if/else itself unchanged — prints the same and ends
+the same as the if/else alone, whatever follows, for all branches, final assignments, continuations
+and environments, provided the fresh names are not read by the program. -/
+theorem cse_preserves (c : Operand) (s1 s2 : List Simple) (fas : List (Nat × Operand × Operand)) (rest : List LStmt)
+    (fresh : Nat) (ρ : Nat → Int)
+    (hfresh : ∀ x, fresh ≤ x → x < fresh + (cseCommon s1 s2).length → (LStmt.ife c s1 s2 fas :: rest).any (usesL x) = false) :
+    (execL ((cseHoisted (cseCommon s1 s2) fresh).map LStmt.s ++ LStmt.ife c s1 s2 fas :: rest) ρ).1
+      = (execL (LStmt.ife c s1 s2 fas :: rest) ρ).1 ∧
+    ResAgreeS (List.range' fresh (cseCommon s1 s2).length)
+      (execL ((cseHoisted (cseCommon s1 s2) fresh).map LStmt.s ++ LStmt.ife c s1 s2 fas :: rest) ρ).2
+      (execL (LStmt.ife c s1 s2 fas :: rest) ρ).2 := by
+  obtain ⟨ht, ρ', hρ'⟩ := cse_hoist_order s1 s2 fresh ρ
+  have hrun : execSimple (cseHoisted (cseCommon s1 s2) fresh) ρ = ([], .next ρ') := by
+    rw [← ht, ← hρ']
+  have := fresh_prefix_preserves (cseHoisted (cseCommon s1 s2) fresh) (LStmt.ife c s1 s2 fas :: rest) ρ ρ' hrun
+    (by
+      intro x hx
+      rw [defs_cseHoisted, List.mem_range'_1] at hx
+      exact hfresh x hx.1 hx.2)
+  rw [defs_cseHoisted] at this
+  exact this
+
+example : (cseHoisted (cseCommon [.bin 2 .add (.var 0) (.var 1)] [.bin 3 .add (.var 0) (.var 1)]) 50)
+    = [.bin 50 .add (.var 0) (.var 1)] := by decide
+
+/-! ## 7b. DCE through SingleIf / IfElse -/
+
+def AgreeOn (L : List Nat) (ρ1 ρ2 : Nat → Int) : Prop := ∀ x, x ∈ L → ρ1 x = ρ2 x
+
+def EndRel (L : List Nat) : Res → Res → Prop
+  | .trap, .trap => True
+  | .brk v, .brk w => v = w
+  | .next σ1, .next σ2 => AgreeOn L σ1 σ2
+  | _, _ => False
+
+theorem dceS_mono (p : List Simple) (live : List Nat) : ∀ x, x ∈ live → x ∈ (dceS p live).2 := by
+  induction p with
+  | nil => intro x h; exact h
+  | cons st r ih =>
+    intro x h
+    cases st with
+    | bin y op a b =>
+      simp only [dceS]
+      split
+      · exact ih x h
+      · exact List.mem_append_right _ (ih x h)
+    | print a => simp only [dceS]; exact List.mem_append_right _ (ih x h)
+    | brk a => simp only [dceS]; exact List.mem_append_right _ (ih x h)
+
+theorem agreeOn_update (L : List Nat) (ρ1 ρ2 : Nat → Int) (h : AgreeOn L ρ1 ρ2) (y : Nat) (v : Int) :
+    AgreeOn L (update ρ1 y v) (update ρ2 y v) := by
+  intro x hx; simp only [update]; split
+  · rfl
+  · exact h x hx
+
+/-- FULL STRENGTH: DCE of a block of Binary / call / Break statements -/
+theorem dceS_preserves (p : List Simple) (live : List Nat) (ρ1 ρ2 : Nat → Int)
+    (h : AgreeOn (dceS p live).2 ρ1 ρ2) :
+    (execSimple p ρ1).1 = (execSimple (dceS p live).1 ρ2).1 ∧
+    EndRel live (execSimple p ρ1).2 (execSimple (dceS p live).1 ρ2).2 := by
+  induction p generalizing ρ1 ρ2 with
+  | nil => exact ⟨rfl, h⟩
+  | cons st r ih =>
+    cases st with
+    | print a =>
+      simp only [dceS] at h ⊢
+      have ea : a.eval ρ1 = a.eval ρ2 := eval_agree a ρ1 ρ2 (fun x hx => h x (by simp [hx]))
+      have := ih ρ1 ρ2 (fun x hx => h x (by simp [hx]))
+      simp only [execSimple, ea]
+      exact ⟨by rw [this.1], this.2⟩
+    | brk a =>
+      simp only [dceS] at h ⊢
+      have ea : a.eval ρ1 = a.eval ρ2 := eval_agree a ρ1 ρ2 (fun x hx => h x (by simp [hx]))
+      simp only [execSimple, ea]
+      exact ⟨trivial, by simp [EndRel]⟩
+    | bin y op a b =>
+      by_cases hc : (!(dceS r live).2.contains y && op != .div && op != .mod) = true
+      · have e : dceS (.bin y op a b :: r) live = dceS r live := by simp only [dceS, hc, if_true]
+        rw [e] at h ⊢
+        simp only [Bool.and_eq_true, Bool.not_eq_true', bne_iff_ne, ne_eq] at hc
+        obtain ⟨v, hv⟩ := evalTarget_total_of_not_div op (a.eval ρ1) (b.eval ρ1) hc.1.2 hc.2
+        simp only [execSimple, hv]
+        apply ih (update ρ1 y v) ρ2
+        intro x hx
+        have hxy : x ≠ y := fun e' => by
+          have := hc.1.1; rw [e'] at hx; simp at this; exact this hx
+        simp only [update, hxy, if_false]
+        exact h x hx
+      · have e : dceS (.bin y op a b :: r) live
+            = (.bin y op a b :: (dceS r live).1, a.vars ++ b.vars ++ (dceS r live).2) := by
+          simp only [dceS, hc]; rfl
+        rw [e] at h ⊢
+        have ea : a.eval ρ1 = a.eval ρ2 := eval_agree a ρ1 ρ2 (fun x hx => h x (by simp [hx]))
+        have eb : b.eval ρ1 = b.eval ρ2 := eval_agree b ρ1 ρ2 (fun x hx => h x (by simp [hx]))
+        simp only [execSimple, ea, eb]
+        cases evalTarget op (a.eval ρ2) (b.eval ρ2) with
+        | none => exact ⟨rfl, trivial⟩
+        | some v =>
+          apply ih (update ρ1 y v) (update ρ2 y v)
+          exact agreeOn_update _ _ _ (fun x hx => h x (by simp [hx])) y v
+
+theorem dceL_mono (p : List LStmt) (live : List Nat) : ∀ x, x ∈ live → x ∈ (dceL p live).2 := by
+  induction p with
+  | nil => intro x h; exact h
+  | cons st r ih =>
+    intro x h
+    cases st with
+    | s st => simp only [dceL]; exact dceS_mono [st] _ x (ih x h)
+    | sif c inv body =>
+      simp only [dceL]
+      split
+      · exact dceS_mono body _ x (ih x h)
+      · exact List.mem_append_right _ (dceS_mono body _ x (ih x h))
+    | ife c s1 s2 fas =>
+      simp only [dceL]
+      have h0 : x ∈ (keptFas fas (dceL r live).2).flatMap (fun fa => fa.2.1.vars ++ fa.2.2.vars) ++ (dceL r live).2 :=
+        List.mem_append_right _ (ih x h)
+      have h2 := dceS_mono s2 _ x (dceS_mono s1 _ x h0)
+      split
+      · exact h2
+      · exact List.mem_append_right _ h2
+
+theorem agreeOn_mono {L L' : List Nat} {ρ1 ρ2 : Nat → Int} (h : AgreeOn L' ρ1 ρ2) (hs : ∀ x, x ∈ L → x ∈ L') :
+    AgreeOn L ρ1 ρ2 := fun x hx => h x (hs x hx)
+
+/-- final assignments: the original binds all of them, the optimised block only the live ones -/
+theorem assign_kept_agree (L : List Nat) (l : List (Nat × Int)) (σ1 σ2 : Nat → Int) (h : AgreeOn L σ1 σ2) :
+    AgreeOn L (assignAll σ1 l) (assignAll σ2 (l.filter fun p => L.contains p.1)) := by
+  induction l generalizing σ1 σ2 with
+  | nil => exact h
+  | cons p r ih =>
+    obtain ⟨y, v⟩ := p
+    by_cases hy : L.contains y = true
+    · simp only [List.filter_cons, hy, if_true, assignAll]
+      exact ih _ _ (agreeOn_update L _ _ h y v)
+    · simp only [List.filter_cons, hy, assignAll]
+      apply ih
+      intro x hx
+      have : x ≠ y := fun e => hy (by rw [← e]; simpa using hx)
+      simp only [update, this, if_false]
+      exact h x hx
+
+theorem map_filter_fas (fas : List (Nat × Operand × Operand)) (L : List Nat) (f : Nat × Operand × Operand → Int) :
+    (fas.map fun fa => (fa.1, f fa)).filter (fun p => L.contains p.1) = (keptFas fas L).map fun fa => (fa.1, f fa) := by
+  unfold keptFas
+  rw [List.filter_map]
+  rfl
+
+/-- one branch of an if/else followed by its final assignments -/
+theorem dce_branch (body : List Simple) (fas : List (Nat × Operand × Operand)) (sel : Operand × Operand → Operand)
+    (after l0 : List Nat) (ρ1 ρ2 : Nat → Int)
+    (hl0 : ∀ x, x ∈ after → x ∈ l0)
+    (huse : ∀ fa, fa ∈ keptFas fas after → ∀ x, x ∈ (sel fa.2).vars → x ∈ l0)
+    (h : AgreeOn (dceS body l0).2 ρ1 ρ2) :
+    (execSimple body ρ1).1 = (execSimple (dceS body l0).1 ρ2).1 ∧
+    (match (execSimple body ρ1).2, (execSimple (dceS body l0).1 ρ2).2 with
+     | .trap, .trap => True
+     | .brk v, .brk w => v = w
+     | .next σ1, .next σ2 =>
+        AgreeOn after (assignAll σ1 (fas.map fun fa => (fa.1, (sel fa.2).eval σ1)))
+                      (assignAll σ2 ((keptFas fas after).map fun fa => (fa.1, (sel fa.2).eval σ2)))
+     | _, _ => False) := by
+  have hs := dceS_preserves body l0 ρ1 ρ2 h
+  refine ⟨hs.1, ?_⟩
+  have hs2 := hs.2
+  cases hr1 : execSimple body ρ1 with
+  | mk t1 r1 =>
+    cases hr2 : execSimple (dceS body l0).1 ρ2 with
+    | mk t2 r2 =>
+      rw [hr1, hr2] at hs2
+      simp only at hs2
+      cases r1 <;> cases r2 <;> simp only [EndRel] at hs2 ⊢
+      all_goals first | trivial | exact hs2.elim | exact hs2 | skip
+      rename_i σ1 σ2
+      have hvals : ((keptFas fas after).map fun fa => (fa.1, (sel fa.2).eval σ2))
+          = ((keptFas fas after).map fun fa => (fa.1, (sel fa.2).eval σ1)) := by
+        apply List.map_congr_left
+        intro fa hfa
+        rw [eval_agree (sel fa.2) σ1 σ2 (fun x hx => hs2 x (huse fa hfa x hx))]
+      rw [hvals, ← map_filter_fas fas after (fun fa => (sel fa.2).eval σ1)]
+      exact assign_kept_agree after _ σ1 σ2 (agreeOn_mono hs2 hl0)
+
+theorem assignAll_agree_dead (L : List Nat) (l : List (Nat × Int)) (σ1 σ2 : Nat → Int) (h : AgreeOn L σ1 σ2)
+    (hd : ∀ p, p ∈ l → L.contains p.1 = false) : AgreeOn L (assignAll σ1 l) σ2 := by
+  have := assign_kept_agree L l σ1 σ2 h
+  have he : l.filter (fun p => L.contains p.1) = [] := by
+    apply List.filter_eq_nil_iff.mpr
+    intro p hp; have := hd p hp; simpa using this
+  rw [he] at this
+  exact this
+
+/-- FULL STRENGTH (`dceL_preserves`): DCE through `SingleIf` and `IfElse` (with final assignments) over
+statement blocks. For every block, every set of names used afterwards and every two environments
+that agree on the names DCE considers used at entry: same prints, trap iff trap, break with the same
+value, or both fall through with environments that agree on the names used afterwards. -/
+theorem dceL_preserves (p : List LStmt) (live : List Nat) (ρ1 ρ2 : Nat → Int)
+    (h : AgreeOn (dceL p live).2 ρ1 ρ2) :
+    (execL p ρ1).1 = (execL (dceL p live).1 ρ2).1 ∧ EndRel live (execL p ρ1).2 (execL (dceL p live).1 ρ2).2 := by
+  induction p generalizing ρ1 ρ2 with
+  | nil => exact ⟨rfl, h⟩
+  | cons st r ih =>
+    cases st with
+    | s st =>
+      simp only [dceL] at h ⊢
+      have hs := dceS_preserves [st] (dceL r live).2 ρ1 ρ2 h
+      rw [execL_prefix]
+      simp only [execL]
+      cases hr1 : execSimple [st] ρ1 with
+      | mk t1 r1 =>
+        cases hr2 : execSimple (dceS [st] (dceL r live).2).1 ρ2 with
+        | mk t2 r2 =>
+          rw [hr1, hr2] at hs
+          simp only at hs
+          cases r1 <;> cases r2 <;> simp only [EndRel] at hs ⊢
+          all_goals first | exact ⟨hs.1, trivial⟩ | exact hs.2.elim | exact ⟨hs.1, hs.2⟩ | skip
+          have := ih _ _ hs.2
+          exact ⟨by rw [hs.1, this.1], this.2⟩
+    | sif c inv body =>
+      by_cases he : (dceS body (dceL r live).2).1.isEmpty = true
+      · -- the whole SingleIf disappears: its body had nothing that must stay
+        have e : dceL (.sif c inv body :: r) live = ((dceL r live).1, (dceS body (dceL r live).2).2) := by
+          simp only [dceL, he, if_true]
+        rw [e] at h ⊢
+        have hnil : (dceS body (dceL r live).2).1 = [] := List.isEmpty_iff.mp he
+        simp only [execL]
+        split
+        · have hs := dceS_preserves body (dceL r live).2 ρ1 ρ2 h
+          rw [hnil] at hs
+          simp only [execSimple] at hs
+          cases hr1 : execSimple body ρ1 with
+          | mk t1 r1 =>
+            rw [hr1] at hs
+            simp only at hs
+            cases r1 <;> simp only [EndRel] at hs
+            · exact hs.2.elim
+            · exact hs.2.elim
+            · have := ih _ _ hs.2
+              simp only
+              rw [hs.1]; simpa using this
+        · exact ih _ _ (agreeOn_mono h (dceS_mono body _))
+      · have e : dceL (.sif c inv body :: r) live
+            = (.sif c inv (dceS body (dceL r live).2).1 :: (dceL r live).1, c.vars ++ (dceS body (dceL r live).2).2) := by
+          simp only [dceL, he]; rfl
+        rw [e] at h ⊢
+        have ec : c.eval ρ1 = c.eval ρ2 := eval_agree c ρ1 ρ2 (fun x hx => h x (by simp [hx]))
+        have hb : AgreeOn (dceS body (dceL r live).2).2 ρ1 ρ2 := fun x hx => h x (by simp [hx])
+        simp only [execL, ec]
+        split
+        · have hs := dceS_preserves body (dceL r live).2 ρ1 ρ2 hb
+          cases hr1 : execSimple body ρ1 with
+          | mk t1 r1 =>
+            cases hr2 : execSimple (dceS body (dceL r live).2).1 ρ2 with
+            | mk t2 r2 =>
+              rw [hr1, hr2] at hs
+              simp only at hs
+              cases r1 <;> cases r2 <;> simp only [EndRel] at hs ⊢
+              all_goals first | exact ⟨hs.1, trivial⟩ | exact hs.2.elim | exact ⟨hs.1, hs.2⟩ | skip
+              have := ih _ _ hs.2
+              exact ⟨by rw [hs.1, this.1], this.2⟩
+        · exact ih _ _ (agreeOn_mono hb (dceS_mono body _))
+    | ife c s1 s2 fas =>
+      -- abbreviations as in the definition
+      have hfas : ∀ fa, fa ∈ keptFas fas (dceL r live).2 → ∀ x,
+          (x ∈ fa.2.1.vars ∨ x ∈ fa.2.2.vars) →
+          x ∈ (keptFas fas (dceL r live).2).flatMap (fun fa => fa.2.1.vars ++ fa.2.2.vars) ++ (dceL r live).2 := by
+        intro fa hfa x hx
+        apply List.mem_append_left
+        apply List.mem_flatMap.mpr
+        exact ⟨fa, hfa, by simpa using hx⟩
+      have hafter : ∀ x, x ∈ (dceL r live).2 →
+          x ∈ (keptFas fas (dceL r live).2).flatMap (fun fa => fa.2.1.vars ++ fa.2.2.vars) ++ (dceL r live).2 :=
+        fun x hx => List.mem_append_right _ hx
+      generalize hl0 : (keptFas fas (dceL r live).2).flatMap (fun fa => fa.2.1.vars ++ fa.2.2.vars) ++ (dceL r live).2 = l0 at hfas hafter
+      by_cases he : ((dceS s1 l0).1.isEmpty && (dceS s2 (dceS s1 l0).2).1.isEmpty && (keptFas fas (dceL r live).2).isEmpty) = true
+      · have e : dceL (.ife c s1 s2 fas :: r) live = ((dceL r live).1, (dceS s2 (dceS s1 l0).2).2) := by
+          simp only [dceL, hl0, he, if_true]
+        rw [e] at h ⊢
+        simp only [Bool.and_eq_true] at he
+        have hn1 : (dceS s1 l0).1 = [] := List.isEmpty_iff.mp he.1.1
+        have hn2 : (dceS s2 (dceS s1 l0).2).1 = [] := List.isEmpty_iff.mp he.1.2
+        have hnf : keptFas fas (dceL r live).2 = [] := List.isEmpty_iff.mp he.2
+        have hdead : ∀ (f : Nat × Operand × Operand → Int) (p : Nat × Int), p ∈ (fas.map fun fa => (fa.1, f fa)) →
+            (dceL r live).2.contains p.1 = false := by
+          intro f p hp
+          obtain ⟨fa, hfa, rfl⟩ := List.mem_map.mp hp
+          cases hcnt : (dceL r live).2.contains fa.1 with
+          | false => rfl
+          | true =>
+            have : fa ∈ keptFas fas (dceL r live).2 := List.mem_filter.mpr ⟨hfa, hcnt⟩
+            rw [hnf] at this; simp at this
+        simp only [execL]
+        split
+        · have hs := dceS_preserves s1 l0 ρ1 ρ2 (agreeOn_mono h (dceS_mono s2 _))
+          rw [hn1] at hs
+          simp only [execSimple] at hs
+          cases hr1 : execSimple s1 ρ1 with
+          | mk t1 r1 =>
+            rw [hr1] at hs
+            simp only at hs
+            cases r1 <;> simp only [EndRel] at hs
+            · exact hs.2.elim
+            · exact hs.2.elim
+            · rename_i σ1
+              have hag : AgreeOn (dceL r live).2 (assignAll σ1 (fas.map fun fa => (fa.1, fa.2.1.eval σ1))) ρ2 :=
+                assignAll_agree_dead _ _ σ1 ρ2 (agreeOn_mono hs.2 hafter) (hdead _)
+              have := ih _ _ hag
+              simp only
+              rw [hs.1]; simpa using this
+        · have hs := dceS_preserves s2 (dceS s1 l0).2 ρ1 ρ2 h
+          rw [hn2] at hs
+          simp only [execSimple] at hs
+          cases hr1 : execSimple s2 ρ1 with
+          | mk t1 r1 =>
+            rw [hr1] at hs
+            simp only at hs
+            cases r1 <;> simp only [EndRel] at hs
+            · exact hs.2.elim
+            · exact hs.2.elim
+            · rename_i σ1
+              have hag : AgreeOn (dceL r live).2 (assignAll σ1 (fas.map fun fa => (fa.1, fa.2.2.eval σ1))) ρ2 :=
+                assignAll_agree_dead _ _ σ1 ρ2 (agreeOn_mono hs.2 (fun x hx => dceS_mono s1 _ x (hafter x hx))) (hdead _)
+              have := ih _ _ hag
+              simp only
+              rw [hs.1]; simpa using this
+      · have e : dceL (.ife c s1 s2 fas :: r) live
+            = (.ife c (dceS s1 l0).1 (dceS s2 (dceS s1 l0).2).1 (keptFas fas (dceL r live).2) :: (dceL r live).1,
+               c.vars ++ (dceS s2 (dceS s1 l0).2).2) := by
+          simp only [dceL, hl0, he]; rfl
+        rw [e] at h ⊢
+        have ec : c.eval ρ1 = c.eval ρ2 := eval_agree c ρ1 ρ2 (fun x hx => h x (by simp [hx]))
+        have h2 : AgreeOn (dceS s2 (dceS s1 l0).2).2 ρ1 ρ2 := fun x hx => h x (by simp [hx])
+        simp only [execL, ec]
+        split
+        · have hb := dce_branch s1 fas (fun q => q.1) (dceL r live).2 l0 ρ1 ρ2 hafter
+            (fun fa hfa x hx => hfas fa hfa x (Or.inl hx)) (agreeOn_mono h2 (dceS_mono s2 _))
+          cases hr1 : execSimple s1 ρ1 with
+          | mk t1 r1 =>
+            cases hr2 : execSimple (dceS s1 l0).1 ρ2 with
+            | mk t2 r2 =>
+              rw [hr1, hr2] at hb
+              simp only at hb
+              cases r1 <;> cases r2 <;> simp only [EndRel] at hb ⊢
+              all_goals first | exact ⟨hb.1, trivial⟩ | exact hb.2.elim | exact ⟨hb.1, hb.2⟩ | skip
+              have := ih _ _ hb.2
+              exact ⟨by rw [hb.1, this.1], this.2⟩
+        · have hb := dce_branch s2 fas (fun q => q.2) (dceL r live).2 (dceS s1 l0).2 ρ1 ρ2
+            (fun x hx => dceS_mono s1 _ x (hafter x hx))
+            (fun fa hfa x hx => dceS_mono s1 _ x (hfas fa hfa x (Or.inr hx))) h2
+          cases hr1 : execSimple s2 ρ1 with
+          | mk t1 r1 =>
+            cases hr2 : execSimple (dceS s2 (dceS s1 l0).2).1 ρ2 with
+            | mk t2 r2 =>
+              rw [hr1, hr2] at hb
+              simp only at hb
+              cases r1 <;> cases r2 <;> simp only [EndRel] at hb ⊢
+              all_goals first | exact ⟨hb.1, trivial⟩ | exact hb.2.elim | exact ⟨hb.1, hb.2⟩ | skip
+              have := ih _ _ hb.2
+              exact ⟨by rw [hb.1, this.1], this.2⟩
+
+example : (dceL [.s (.bin 2 .add (.var 0) (.lit 1)), .sif (.var 0) false [.bin 3 .mul (.var 2) (.var 2)],
+                 .ife (.var 1) [.bin 4 .add (.var 2) (.lit 1), .print (.var 4)] [] [(5, .var 4, .lit 0), (6, .var 2, .var 2)]] [6]).1
+    = [.s (.bin 2 .add (.var 0) (.lit 1)),
+       .ife (.var 1) [.bin 4 .add (.var 2) (.lit 1), .print (.var 4)] [] [(6, .var 2, .var 2)]] := by decide
+
 end SamVerif.Opt
 
 /-! ## 12. Temporary names across phases: the round driver keeps the heap's counter ahead of every
